@@ -147,6 +147,9 @@ static void model_case_impl(Case& c, int l0pass, std::vector<std::string>* snaps
     for (int a = 0; a < rows; a++) for (int b = 0; b < cols; b++) { npop(a, b) = h.th(a, b) + (rng.coin(50) ? 0 : rng.in(0, 10)); if (npop(a, b) == 0) npop(a, b) = rng.in(1, 4); }
     IRaster& total_pop = same_pop ? h.th : npop;
     std::vector<IRaster> soil_rasters((size_t)rng.in(1, 3), IRaster(rows, cols, 0));
+    // the reservoir handed to activate_soils may already hold inoculum from an earlier run
+    bool soil_prefilled = use_soils && rng.coin(50);
+    if (soil_prefilled) { for (auto& sr : soil_rasters) for (int a = 0; a < rows; a++) for (int b = 0; b < cols; b++) sr(a, b) = rng.coin(50) ? 0 : rng.in(1, 6); stats.add("soil_prefilled"); }
     if (use_soils) model.activate_soils(soil_rasters);
     DRaster weather(rows, cols, 1.0);
     std::vector<DRaster> temperatures, survival_rates;
@@ -198,6 +201,11 @@ static void model_case_impl(Case& c, int l0pass, std::vector<std::string>* snaps
         << " rates=" << config.use_spreadrates << ":" << sched(config.use_spreadrates, &Config::spread_rate_schedule)
         << " quarantine=" << config.use_quarantine << ":" << sched(config.use_quarantine, &Config::quarantine_schedule) << " => ok\n";
     out << "hp.treatlist -1" << tlist.str() << " => ok\n";
+    if (use_soils) {
+        out << "hp.soilstate -1 0 =>";
+        for (int x = 0; x < rows; x++) for (int y2 = 0; y2 < cols; y2++) { out << " "; for (size_t k = 0; k < soil_rasters.size(); k++) out << (k ? "," : "") << soil_rasters[k](x, y2); }
+        out << "\n";
+    }
     stats.add(sei ? "cases_sei" : "cases_si"); stats.add(pool_entry ? "entry_pools" : "entry_rasters");
     stats.add("steps", nsteps);
     // hook: print the state after every action
